@@ -76,13 +76,11 @@ fn vendor_class(v: &Option<String>) -> String {
     format!("ext-{}", f.join("+"))
 }
 
-/// Class used for the run-time capability lookup (what the Builder was asked to generate).
-fn capability_key(class: &str) -> &str {
-    if class.starts_with("core") || class == "none" {
-        "core"
-    } else {
-        class
-    }
+/// Key of the run-time capability lookup (what the Builder was asked to generate): vendor class + label syntax.
+/// Grammar-keyword vendors are looked up individually.
+fn capability_key(class: &str, is_v1: bool) -> String {
+    let c = if class == "core" || class == "none" { "core" } else { class };
+    format!("{c}|{}", if is_v1 { "v1" } else { "v2" })
 }
 
 struct Fail {
@@ -106,7 +104,7 @@ fn check(t: &Tup) -> (u64, Vec<Fail>) {
     // 1. label <-> parts
     eq("label-parts", "manifest_label_to_parts(label)", format!("{:?}", L::manifest_label_to_parts(&label)), format!("{:?}", Some(parts.clone())), &mut fails);
     let m_uri = L::to_manifest_uri(&label);
-    eq("uri", "manifest_label_to_parts(to_manifest_uri)", format!("{:?}", L::manifest_label_to_parts(&m_uri)), format!("{:?}", Some(parts.clone())), &mut fails);
+    eq("label-parts", "manifest_label_to_parts(to_manifest_uri)", format!("{:?}", L::manifest_label_to_parts(&m_uri)), format!("{:?}", Some(parts.clone())), &mut fails);
     // 2./3. URIs -> manifest label, assertion / box label
     let a_label = L::label_with_instance(&t.a_base, t.a_inst);
     let d_label = L::label_with_instance("c2pa.data", t.d_inst);
@@ -296,7 +294,7 @@ fn judge(t: &Tup, capable: &BTreeSet<String>, out: &mut Out) {
     };
     out.equalities += n;
     let a_ok = assertion_base_in_domain(&t.a_base);
-    let judged_vendor = !vc.starts_with("out-of-domain") && capable.contains(capability_key(&vc));
+    let judged_vendor = !vc.starts_with("out-of-domain") && capable.contains(&capability_key(&vc, t.is_v1));
     if !judged_vendor {
         *out.counters.entry(format!("unjudged:vendor class {vc} ({})", if vc.starts_with("out-of-domain") { "outside the valid vendor charset/length" } else { "Builder did not generate such a label" })).or_insert(0) += 1;
         if !fails.is_empty() {
@@ -376,8 +374,43 @@ fn main() {
         "the manifest-label and box-name round trips of verifiable-credential URIs are not part of the statement and are not judged".into(),
     ];
 
+    if let Some(p) = run.replay.clone() {
+        let v: Value = serde_json::from_slice(&std::fs::read(&p).expect("replay file")).expect("json");
+        let w = &v["witness"];
+        let us = |k: &str| w[k].as_str().and_then(|s| s.parse::<usize>().ok());
+        let t = Tup {
+            guid: w["guid"].as_str().unwrap_or("").to_string(),
+            is_v1: w["is_v1"].as_bool().unwrap_or(false),
+            cgi: w["vendor"].as_str().map(|s| s.to_string()),
+            version: us("version"),
+            reason: us("reason"),
+            a_base: w["assertion_base"].as_str().unwrap_or("c2pa.actions").to_string(),
+            a_inst: w["assertion_instance"].as_u64().unwrap_or(0) as usize,
+            d_inst: w["databox_instance"].as_u64().unwrap_or(0) as usize,
+        };
+        match report::catch_sdk(|| check(&t)) {
+            Ok((n, fails)) => {
+                println!("replay: label {} -> {} equalities, {} broken", L::parts_to_string(&t.parts()), n, fails.len());
+                for f in &fails {
+                    println!("  [{}] {}: {}", f.group, f.func, f.detail);
+                }
+                std::process::exit(if fails.is_empty() { 0 } else { 1 });
+            }
+            Err(p) => {
+                println!("replay: panic {p}");
+                std::process::exit(1);
+            }
+        }
+    }
+
     // ---- capability probe
-    let probes: Vec<(&str, &str)> = vec![("core", "acme.tool-1_x"), ("ext-slash", "a/b"), ("ext-equals", "a=b"), ("ext-slash+equals", "a=/b"), ("ext-other", "a#b"), ("ext-other", "a?b%20\"c\""), ("ext-other", "<a>&b;")];
+    let mut probes: Vec<(String, String)> = [("core", "acme.tool-1_x"), ("ext-slash", "a/b"), ("ext-slash", "x/c2pa/y"), ("ext-equals", "a=b"), ("ext-slash+equals", "a=/b"), ("ext-other", "a#b"), ("ext-other", "a?b%20\"c\""), ("ext-other", "<a>&b;")]
+        .iter()
+        .map(|(a, b)| (a.to_string(), b.to_string()))
+        .collect();
+    for k in KEYWORDS {
+        probes.push((format!("core-keyword:{k}"), k.to_string()));
+    }
     let mut capable: BTreeSet<String> = BTreeSet::new();
     let mut probe_log = Vec::new();
     for (class, v) in &probes {
@@ -385,14 +418,15 @@ fn main() {
             let r = builder_generates(v, cv);
             let ok = matches!(&r, Ok(l) if l.contains(&v.to_lowercase()));
             if ok {
-                capable.insert(class.to_string());
+                capable.insert(capability_key(class, cv == 1));
             }
+            let class = if class.starts_with("core-keyword") { "core-keyword" } else { class.as_str() };
             run.count(&format!("capability:{class}:{}", if ok { "builder-generated-label" } else { "not-generated" }), 1);
             probe_log.push(json!({"class": class, "vendor": v, "claim_version": cv, "result": match &r { Ok(l) => json!({"active_label": l}), Err(e) => json!({"error": e}) }}));
         }
     }
     run.set("capability_probe", json!(probe_log));
-    if !capable.contains("core") {
+    if !capable.contains("core|v2") {
         run.inconclusive("capability probe: Builder could not sign even with a core-alphabet vendor");
     }
 
